@@ -75,7 +75,12 @@ func parseClusterNodes(data string) (map[string]*instance, error) {
 		if inst.MasterID == "" {
 			continue
 		}
-		master := insts[inst.MasterID]
+		master, ok := insts[inst.MasterID]
+		if !ok {
+			// the master isn't listed, ignore the replica.
+			delete(insts, id)
+			continue
+		}
 		master.Replicas = append(master.Replicas, inst)
 		delete(insts, id)
 	}
